@@ -5,10 +5,10 @@ from ..cmp import cmp_bits_list
 from .. import exact as X
 from .. import gen
 
-MODULE = "Momtrop.Props.C15"
+MODULE = "Momtrop.Props.C15PD"
 THEOREMS = ["Momtrop.C15.decompose_none", "Momtrop.C15.decompose_ok_of_pivotsPos", "Momtrop.C15.factor_correct",
             "Momtrop.C15.factor_upper_pos", "Momtrop.C15.qTInv_correct", "Momtrop.C15.inverse_correct",
-            "Momtrop.C15.determinant_correct", "Momtrop.C15.ex_pivotsPos", "Momtrop.C15.ex_symm"]
+            "Momtrop.C15.determinant_correct", "Momtrop.C15.ex_pivotsPos", "Momtrop.C15.ex_symm", "Momtrop.pivotsPos_of_posDef", "Momtrop.C15.decompose_correct_of_posDef"]
 RULE = ("symmetric positive-definite matrices n=1..8 from five families (random B^T B+ridge, graded, Hilbert-like, "
         "integer, graph L matrices), exact SPD test and exact condition number (Fractions), cond<=1e10; "
         "non-trivial when n>=3; distinct = distinct matrix bits")
